@@ -11,10 +11,11 @@ from discopy import cat, monoidal, rigid, rewriting  # noqa: E402
 # opcodes (must match dec_prog in coq/Core/Prog.v)
 (ID, BOX, MK, THEN, TENSOR, DAGGER, SLICE, SLICEREV, GETITEM, INTERCHANGE,
  NORMALIZE, NORMALFORM, SWAP, PERMUTATION, PERMUTE, CUPS, CAPS, TRANSPOSE,
- FUNCTOR) = range(19)
+ FUNCTOR, FOLIATE, FOLIATION) = range(21)
 OPNAMES = ["Id", "Box", "Mk", "Then", "Tensor", "Dagger", "Slice", "SliceRev",
            "GetItem", "Interchange", "Normalize", "NormalForm", "Swap",
-           "Permutation", "Permute", "Cups", "Caps", "Transpose", "Functor"]
+           "Permutation", "Permute", "Cups", "Caps", "Transpose", "Functor",
+           "Foliate", "Foliation"]
 KBOX, KSWAP, KCUP, KCAP = 0, 1, 2, 3
 TRACE_LIMIT = 60
 
@@ -199,7 +200,23 @@ def interp(c, p):
     if op == FUNCTOR:
         d = interp(c, p[3])
         return make_functor(c, p[1], p[2])(d)
+    if op == FOLIATE:
+        return list(interp(c, p[1]).foliate())
+    if op == FOLIATION:
+        return foliation_slices(interp(c, p[1]))
     raise AssertionError("bad opcode %r" % (op,))
+
+
+class FoliationError(Exception):
+    """d.foliation() is not a diagram of slices from d.dom to d.cod at offsets 0."""
+
+
+def foliation_slices(d):
+    """The boxes of d.foliation() (diagrams), after checking the outer diagram's shape."""
+    fol = d.foliation()
+    if fol.dom != d.dom or fol.cod != d.cod or list(fol.offsets) != len(fol.boxes) * [0]:
+        raise FoliationError("foliation() has dom %r, cod %r, offsets %r" % (fol.dom, fol.cod, fol.offsets))
+    return list(fol.boxes)
 
 
 CALLABLE_FUNCTORS = False
@@ -263,7 +280,7 @@ def pretty(p):
     return [OPNAMES[p[0]]] + [pretty(x) if isinstance(x, list) and x and isinstance(x[0], int)
                               and i in (0, 1, 2) and p[0] in (THEN, TENSOR, DAGGER, SLICE, SLICEREV,
                                                               GETITEM, INTERCHANGE, NORMALIZE, NORMALFORM,
-                                                              PERMUTE, TRANSPOSE) and i == 0
+                                                              PERMUTE, TRANSPOSE, FOLIATE, FOLIATION) and i == 0
                               else (pretty(x) if p[0] in (THEN, TENSOR) and i == 1 else x)
                               for i, x in enumerate(p[1:])]
 
